@@ -79,6 +79,16 @@ var numericChain = map[string][]string{
 	"uint64": {"uint32", "int64", "float64"}, "size": {"uint32", "int64"}, "float32": {"float64", "int32"}, "float64": {"float32", "int64"},
 }
 
+// addAlias appends `Base<n>: ty` to the package and returns a reference to it.
+func addAlias(p *Package, base string, ty *Type) *Type {
+	name := base
+	for i := 2; p.Find(name) != nil; i++ {
+		name = fmt.Sprintf("%s%d", base, i)
+	}
+	p.Defs = append(p.Defs, &Def{Kind: DAlias, Name: name, Type: ty})
+	return Ref(p.Namespace, name)
+}
+
 func newFieldName(d *Def, base string) string {
 	for i := 0; ; i++ {
 		n := base
@@ -122,13 +132,19 @@ var EvoEdits = []EvoEdit{
 		}
 		d := ps[pickInt(t, "proto", len(ps))]
 		var ty *Type
-		switch pickInt(t, "addedKind", 3) {
+		elem := Prim([]string{"int32", "string", "float32", "uint8", "int64"}[pickInt(t, "addedElem", 5)]) // no bool: vectors and streams of bool are behind the known finding C08-cpp-vector-of-bool
+		kind := pickInt(t, "addedKind", 3)
+		switch kind {
 		case 0:
-			ty = Optional(Prim("int32"))
+			ty = Optional(elem)
 		case 1:
-			ty = Vector(Prim("string"))
+			ty = Vector(elem)
 		default:
-			ty = Stream(Prim("float32"))
+			ty = Stream(elem)
+		}
+		// the new step's type may be given a name first (an alias is only a name for the type)
+		if kind != 2 && pickInt(t, "addedViaAlias", 3) == 0 {
+			ty = addAlias(p, "AddedStepType", ty)
 		}
 		d.Fields = append(d.Fields, Field{Name: newFieldName(d, "addedStep"), Type: ty})
 		return d.Name, true
@@ -140,7 +156,11 @@ var EvoEdits = []EvoEdit{
 		}
 		d := rs[pickInt(t, "rec", len(rs))]
 		pos := pickInt(t, "pos", len(d.Fields)+1)
-		nf := Field{Name: newFieldName(d, "addedOpt"), Type: Optional(Prim("int32"))}
+		oty := Optional(Prim([]string{"int32", "string", "float64"}[pickInt(t, "addedOptElem", 3)]))
+		if pickInt(t, "addedOptViaAlias", 3) == 0 {
+			oty = addAlias(p, "AddedOptType", oty)
+		}
+		nf := Field{Name: newFieldName(d, "addedOpt"), Type: oty}
 		d.Fields = append(d.Fields[:pos:pos], append([]Field{nf}, d.Fields[pos:]...)...)
 		return d.Name, true
 	}},
@@ -258,6 +278,12 @@ var EvoEdits = []EvoEdit{
 			x := get()
 			u := env.Underlying(x)
 			if x.Kind != KOptional && x.Kind != KUnion && x.Kind != KParam && u.Kind != KOptional && u.Kind != KUnion && !usesField(fp.Def, fp.Def.Fields[fp.Idx].Name) {
+				// yardl rejects `[null, <vector/array/map of an inline union>]` ("unions may not
+				// immediately contain other unions", although a container lies in between); the
+				// same type through an alias is accepted. Not a position this edit can use.
+				if (x.Kind == KVector || x.Kind == KArray || x.Kind == KMap) && x.Elem != nil && (x.Elem.Kind == KUnion || x.Elem.Kind == KOptional) {
+					continue
+				}
 				c = append(c, fp)
 			}
 		}
@@ -277,6 +303,11 @@ var EvoEdits = []EvoEdit{
 			}
 			get, _ := payload(&fp.Def.Fields[fp.Idx])
 			if x := get(); x.Kind == KOptional && !usesField(fp.Def, fp.Def.Fields[fp.Idx].Name) {
+				// the payload must not itself be an optional/union behind an alias: `T??` -> `T?` is
+				// not the "making a field optional" of the document
+				if u := env.Underlying(x.Elem); u.Kind == KOptional || u.Kind == KUnion {
+					continue
+				}
 				c = append(c, fp)
 			}
 		}
